@@ -567,3 +567,4 @@ RENAME_FUNCS = [(F, n) for n in ('shift_sequence_times', 'stretch_note_sequence'
                                  'concatenate_sequences', 'remove_redundant_data', 'repeat_sequence_to_duration')]
 
 EXPLANATION += (' Location-independent additions: RECTIFY/knots-strictly-increasing (sorted/unique typestate of the interpolation knots), UNIFORM/fields-named (every time-bearing container of the schema is named), REPEAT/through-concatenate (must-pass-through), ADJUST/skip definite on approximate equality.')
+EXPLANATION += (' Round 6: ' + 'UNIFORM/once/<function>: each time-bearing field receives the operation at exactly one site that runs (two sites in different arms of one test count as one).')
